@@ -211,6 +211,9 @@ theorem writeNumb_good (c : Ctx) (t : Str) (q : Bool) (h2 : c.isCif1 = false) (h
   | true => exact writeChar_value_good c t true h2 wit
   | false =>
     simp only [Bool.false_eq_true, ↓reduceIte]
+    by_cases hlong : t.length > LINE
+    · rw [if_pos hlong]; exact writeChar_value_good c t false h2 wit
+    rw [if_neg hlong]
     have hpos := countChar32_pos t ht
     cases hw : writeULiteral c t none true with
     | none =>
